@@ -436,3 +436,149 @@ def make_setter_rule(rid, crates, floor):
         return res.finish(floor)
     rule.__name__ = "rule_setter_overrides"
     return rule
+
+
+# ---------------------------------------------------------------------------------------------------------------------
+# accessors and constructors
+
+def accessor_mixups(F, crates):
+    """[(fn, returned field, field with the accessor's name)]: `fn x(&self) -> .. { &self.y }` on a type that has a field
+    `x` of its own.  The accessor hands out another setting of the same type under this one's name (a seed read through
+    `random_state()` that is really `ncomponents`)."""
+    idx = adt_index(F)
+    out, n = [], 0
+    for fn in F.all_fns():
+        d = fn["d"]
+        if d["krate"] not in crates or fn.get("exp") or d.get("trait") or not d.get("self_adt"):
+            continue
+        if len(fn["params"]) != 1 or fn["params"][0].get("name") != "self":
+            continue
+        ent = idx.get(d["self_adt"]) or idx.get(short(d["self_adt"]))
+        if ent is None:
+            continue
+        fields = struct_fields(ent[1])
+        if not fields:
+            continue
+        names = set(f for f, _, _ in fields)
+        inner = None
+        if names == {"0"}:
+            # newtype around the checked parameters: look through `.0`
+            ity = fields[0][1]
+            for nm in re_names(ity):
+                if nm in idx and struct_fields(idx[nm][1]):
+                    inner = set(f for f, _, _ in struct_fields(idx[nm][1]))
+        scope = inner if inner is not None else names
+        if d["name"] not in scope:
+            continue
+        tail = tail_of(fn)
+        t = peel_refs(tail)
+        while t.get("k") == "MethodCall" and t["name"] in ("clone", "as_ref", "as_deref", "as_slice", "as_str", "view", "to_owned", "copied", "cloned", "borrow", "unwrap_or_default"):
+            t = peel_refs(t["recv"])
+        chain = []
+        u = t
+        while u.get("k") == "Field":
+            chain.insert(0, u["name"])
+            u = peel_refs(u["e"])
+        if not (u.get("k") == "Path" and u.get("name") == "self") or not chain:
+            continue
+        got = chain[1] if chain[0] == "0" and len(chain) > 1 else chain[0]
+        n += 1
+        if got != d["name"] and got in scope:
+            # a mix-up needs two settings of the same type: only then does the wrong one type-check unnoticed
+            ftypes = {}
+            for nm_, ty_, _ in fields:
+                ftypes[nm_] = ty_
+            if inner is not None:
+                for nm in re_names(fields[0][1]):
+                    if nm in idx and struct_fields(idx[nm][1]):
+                        for nm_, ty_, _ in struct_fields(idx[nm][1]):
+                            ftypes[nm_] = ty_
+            if ftypes.get(got) is not None and ftypes.get(got) == ftypes.get(d["name"]):
+                out.append((fn, got, d["name"]))
+    return out, n
+
+
+def re_names(ty):
+    import re as _re
+    return _re.findall(r"\b([A-Z]\w*)\b", ty or "")
+
+
+def make_accessor_rule(rid, crates, floor):
+    def rule(ctx):
+        res = RuleResult(rid, "an accessor named after a field returns that field (not another field of the same type) in %s" % ", ".join(sorted(crates)))
+        F = ctx.facts()
+        found, n = accessor_mixups(F, crates)
+        for i in range(n):
+            res.instance("accessor #%d" % i)
+            res.ok()
+        for fn, got, want in found:
+            key = "%s : accessor-returns-other-field:%s" % (fn_key(fn), got)
+            res.instance(key)
+            res.violate(key, "`%s()` returns the field `%s` although the type has a field `%s`: callers that read the `%s` setting get another setting" % (want, got, want, want), fn_loc(fn))
+        return res.finish(floor)
+    rule.__name__ = "rule_accessors"
+    return rule
+
+
+import re as _re_mod
+SCALAR = _re_mod.compile(r"^(usize|u8|u16|u32|u64|isize|i8|i16|i32|i64|f32|f64|[A-Z][A-Za-z0-9]{0,2})$")
+
+
+def ctor_changes(F, crates):
+    """[(fn, field, how)]: an associated constructor (no self) that stores one of its arguments through a value-changing
+    call or arithmetic: `Pca::params(n)` storing `n.max(1)` makes the documented rejection of n = 0 dead code."""
+    out, n = [], 0
+    for fn in F.all_fns():
+        d = fn["d"]
+        if d["krate"] not in crates or fn.get("exp") or d.get("trait") or not d.get("self_adt"):
+            continue
+        if fn["params"] and fn["params"][0].get("name") == "self":
+            continue
+        if not (fn.get("vis") or "").startswith("pub") or not fn["params"]:
+            continue
+        ps = set(b["local"] for p_ in fn["params"] for b in pat_bindings(p_))
+        lits = [x for x in walk(fn["body"]) if x.get("k") == "Struct" and x.get("fields")]
+        calls = []
+        if not lits:
+            # forwarding constructor: `Type::params(n)` -> `TypeParams::new(n)`
+            for x in walk(fn["body"]):
+                if x.get("k") == "Call" and any(z.get("k") == "Path" and z.get("local") in ps for a in x["args"] for z in walk(a)):
+                    calls.append(x)
+        if not lits and not calls:
+            continue
+        n += 1
+        exprs = [(f_["name"], f_["e"]) for l in lits for f_ in l["fields"]] + [("argument", a) for x in calls for a in x["args"]]
+        for fname, e in exprs:
+            if not any(z.get("k") == "Path" and z.get("local") in ps for z in walk(e)):
+                continue
+            bad = None
+            c_ = fn["crate"]
+
+            def scalar_param(z):
+                z = peel_refs(z)
+                return z.get("k") == "Path" and z.get("local") in ps and SCALAR.match((c_.ty(z.get("t")) or "").strip().lstrip("&")) is not None
+            for y in walk(e):
+                if y.get("k") == "MethodCall" and y["name"] in ("max", "min", "clamp", "abs", "round", "floor", "ceil", "trunc", "saturating_sub", "saturating_add", "wrapping_sub", "wrapping_add", "next_power_of_two", "rem_euclid", "pow", "powi", "sqrt") and scalar_param(y["recv"]):
+                    bad = "`.%s(..)`" % y["name"]
+                if y.get("k") == "Binary" and y["op"] in ("+", "-", "*", "/", "%") and (scalar_param(y["l"]) or scalar_param(y["r"])):
+                    bad = bad or "arithmetic `%s`" % y["op"]
+            if bad:
+                out.append((fn, fname, bad))
+    return out, n
+
+
+def make_ctor_rule(rid, crates, floor):
+    def rule(ctx):
+        res = RuleResult(rid, "public constructors of %s store their arguments unchanged (no clamp / rounding / arithmetic between the argument and the stored field)" % ", ".join(sorted(crates)))
+        F = ctx.facts()
+        found, n = ctor_changes(F, crates)
+        for i in range(n):
+            res.instance("constructor #%d" % i)
+            res.ok()
+        for fn, fname, how in found:
+            key = "%s : constructor-changes-value:%s" % (fn_key(fn), fname)
+            res.instance(key)
+            res.violate(key, "the constructor `%s` passes its argument through %s before storing it in `%s`: the value that is validated and used is not the one the caller gave (a documented rejection of the original value can no longer happen)" % (fn["d"]["name"], how, fname), fn_loc(fn))
+        return res.finish(floor)
+    rule.__name__ = "rule_ctor"
+    return rule
